@@ -167,6 +167,35 @@ def value(item, res):
         return F.sir._anonymize_value(SStr.mk(list(cs)), models.SymDict(), reserved, "S")
     run = sec.Run(fn, item.budget_s, res, assume)
     _finish(item, res, run, cs, vs, lambda m, other: _text(m, cs, vs, other), "value", dict(mode="value"), lambda t: _cell_name(t), full=cs)
+    # length independence: the same format class must give the same replacement for a secret one character shorter
+    if item.params["shape"] == "free" and item.params["n"] >= 2:
+        cs2 = sec.secret_vars(item.params["n"] - 1, "u")
+
+        def assume2(ex_):
+            sec.in_alphabet(ex_, cs2)
+            sec.not_reserved(ex_, cs2)
+        run2 = sec.Run(lambda ex_: F.sir._anonymize_value(SStr.mk(list(cs2)), models.SymDict(), reserved, "S"), item.budget_s, res, assume2)
+
+        def table(r, vars_):
+            out = {}
+            for p in r.paths:
+                if p.model is None or p.exc is not None:
+                    continue
+                t = "".join(chr(ev(p.model, c)) for c in vars_)
+                out.setdefault(_cell_name(t), {})[sec.result_key(p.result)] = t
+            return out
+        t1, t2 = table(run, vs), table(run2, cs2)
+        for cell in set(t1) & set(t2):
+            if cell in ("md5", "j9", "type7"):
+                continue   # these formats legitimately depend on length-related structure (salt length, validity, parity)
+            res["finals"] += 1
+            if set(t1[cell]) != set(t2[cell]):
+                a, b = list(t1[cell].values())[0], list(t2[cell].values())[0]
+                res["violations"].append(dict(description="replacement depends on the length of the secret (class %s)" % cell, witness=dict(input=a, other=b),
+                                              tags=["length-dependent:%s" % cell, "class-dependent"], replay=dict(replayer="secret_pair", args=dict(mode="value", a=a, b=b))))
+                res["status"] = "violated"
+            else:
+                res["finals_unsat"] += 1
 
 
 def _text(m, cs, vs, other):
